@@ -406,6 +406,10 @@ func (g *G) boolExpr(d int) *m.E {
 		ty := pickS(g, "eqty", []Ty{TInt, TStr, TBool, TNull, TArrInt, TArrStr, THash1, TInt, TStr})
 		return m.EBin(pickS(g, "eq", []string{"==", "!="}), g.Expr(ty, d-1), g.Expr(ty, d-1))
 	case 2:
+		if g.intn("cmpstr", 0, 3) == 0 {
+			// two strings are ordered as strings
+			return m.EBin(pickS(g, "cmp", []string{"<", "<=", ">", ">="}), g.Expr(TStr, d-1), g.Expr(TStr, d-1))
+		}
 		return m.EBin(pickS(g, "cmp", []string{"<", "<=", ">", ">="}), g.Expr(TNum, d-1), g.Expr(TNum, d-1))
 	case 3:
 		l := g.Expr(TBool, d-1)
